@@ -45,23 +45,8 @@ Local Notation msg_typed := (msg_typed D teq).
 Local Notation proc_typed := (proc_typed D F teq).
 Local Notation pol_of_ty := (pol_of_ty D).
 
-Lemma pol_unique T : pol_of_ty T Pos -> pol_of_ty T Neg -> False.
-Proof.
-  intros [u [Hu Hp]] [v [Hv Hn]]. rewrite (whd_det D _ _ _ Hu Hv) in Hp. congruence.
-Qed.
-
-Lemma msg_pol Δ k m : msg_typed Δ k m ->
-  exists T, Δ !! k = Some T /\ pol_of_ty T (if is_pos_rule (m_rule m) then Pos else Neg).
-Proof.
-  intros [T [HT H]]. exists T. split; auto.
-  destruct (m_rule m); simpl;
-    repeat match goal with
-           | H : exists _, _ |- _ => destruct H
-           | H : _ /\ _ |- _ => destruct H
-           | H : False |- _ => contradiction
-           end; auto;
-    eexists; (split; [eassumption|reflexivity]).
-Qed.
+Local Notation pol_unique := (pol_unique D).
+Local Notation msg_pol := (msg_pol D teq).
 
 Lemma neg_msg_refs k m : is_pos_rule (m_rule m) = false -> k ∈ refs (OMsg k m).
 Proof. simpl. destruct (m_rule m); simpl; try discriminate; intros _; set_solver. Qed.
@@ -113,9 +98,10 @@ Proof.
       discriminate.
   - destruct (Hd k Hk) as [st Hst]. rewrite Hst in Hs.
     destruct (ch_buf st) as [m|] eqn:Eb.
-    + exfalso. destruct (Hrecv self m (Hm _ _ _ Hst Eb)) as [e [He _]]. rewrite He in Hs. discriminate.
+    + exfalso. destruct (Hrecv self m (ns_fresh_free Δ c self p Hf Ep) (Hm _ _ _ Hst Eb)) as [e [Δ' [He _]]].
+      rewrite He in Hs. discriminate.
     + exists k, st. repeat split; auto. apply (Hcl self p k st Ep (or_introl Ea) Hst).
-  - exfalso. destruct (Hint self) as [e [Δ' [He _]]]; [apply (Hf self p (pr_next p) [] Ep); lia|].
+  - exfalso. destruct (Hint self (ns_fresh_free Δ c self p Hf Ep)) as [e [Δ' [He _]]].
     rewrite He in Hs. discriminate.
 Qed.
 
@@ -248,7 +234,7 @@ Proof. intros [st [Hst Eb]]. rewrite (Hbe k st Hst) in Eb. discriminate. Qed.
 Lemma sync_blocked self p : procs c !! self = Some p ->
   (exists k m, action_of Sync D p = ASend k m /\ msg_typed Δ k m /\ send_side p k m) \/
   (exists k, action_of Sync D p = ARecv k /\ recv_side D Δ p k /\
-             forall r m, msg_typed Δ k m -> exists e, on_message r p m = EOk e).
+             forall r m, ns_free Δ r p -> msg_typed Δ k m -> exists e, on_message r p m = EOk e).
 Proof.
   intros Ep. pose proof Hc as [Hp Hm Hd Hf].
   pose proof (Hq (Run self)) as Hs. simpl in Hs. rewrite Ep in Hs.
@@ -256,9 +242,9 @@ Proof.
   remember (action_of Sync D p) as a eqn:Ea. symmetry in Ea.
   destruct Hv as [k m Hmsg Hside|k Hk Hside Hrecv|Hint].
   - left. eauto.
-  - right. exists k. split; auto. split; auto. intros r m Hmsg.
-    destruct (Hrecv r m Hmsg) as [e [He _]]. eauto.
-  - exfalso. destruct (Hint self) as [e [Δ' [He _]]]; [apply (Hf self p (pr_next p) [] Ep); lia|].
+  - right. exists k. split; auto. split; auto. intros r m Hfr Hmsg.
+    destruct (Hrecv r m Hfr Hmsg) as [e [Δ' [He _]]]. eauto.
+  - exfalso. destruct (Hint self (ns_fresh_free Δ c self p Hf Ep)) as [e [Δ' [He _]]].
     rewrite (internal_effect_polarized F Sync self p eq_refl) in Hs. rewrite He in Hs. discriminate.
 Qed.
 
@@ -279,21 +265,21 @@ Qed.
 Lemma rendezvous_enabled s r ps pr k m :
   s <> r -> procs c !! s = Some ps -> procs c !! r = Some pr ->
   action_of Sync D ps = ASend k m -> action_of Sync D pr = ARecv k ->
-  msg_typed Δ k m -> (forall r' m', msg_typed Δ k m' -> exists e, on_message r' pr m' = EOk e) -> False.
+  msg_typed Δ k m -> (forall r' m', ns_free Δ r' pr -> msg_typed Δ k m' -> exists e, on_message r' pr m' = EOk e) -> False.
 Proof.
   intros Hne Eps Epr Has Har Hmsg Hrecv.
   destruct (acts_open r pr k Epr (or_introl Har)) as [st [Hst Hcl]].
   pose proof (Hq (Rendezvous s r)) as Hs. simpl in Hs.
   rewrite bool_decide_eq_false_2 in Hs by auto. rewrite Eps, Epr, Has, Har in Hs.
   rewrite bool_decide_eq_true_2 in Hs by auto. rewrite Hst, Hcl in Hs.
-  destruct (Hrecv r m Hmsg) as [e He]. rewrite He in Hs. discriminate.
+  destruct (Hrecv r m (ns_fresh_free Δ c r pr (ct_fresh _ _ _ _ _ Hc) Epr) Hmsg) as [e He]. rewrite He in Hs. discriminate.
 Qed.
 
 (* somebody acts on j as its client *)
 Definition needs_sync (j : cid) : Prop :=
   exists self p, procs c !! self = Some p /\ j ∈ form_chans (pr_body0 p) /\
     ((exists T, action_of Sync D p = ARecv j /\ Δ !! j = Some T /\ pol_of_ty T Pos /\
-                forall r m, msg_typed Δ j m -> exists e, on_message r p m = EOk e) \/
+                forall r m, ns_free Δ r p -> msg_typed Δ j m -> exists e, on_message r p m = EOk e) \/
      (exists m, action_of Sync D p = ASend j m /\ msg_typed Δ j m /\ is_pos_rule (m_rule m) = false)).
 
 Lemma no_needs_sync : forall j, ~ needs_sync j.
